@@ -328,4 +328,106 @@ __CPROVER_ensures(__CPROVER_return_value == NULL || NEW_OK(__CPROVER_return_valu
 __CPROVER_ensures(__CPROVER_return_value == NULL || NEW_DOCS_OK(__CPROVER_return_value))
 DECL_cmd_new(contract_C17_cmd_new);
 #endif
+
+#if defined(VERIF_TU_CHECKER) || defined(VERIF_TU_BUILDER)
+/* ============ error accessors, callback registration (C13, C14) ============
+ * error(): 1 for a NULL object, else the flag as 0/1; error_msg(): the object's buffer;
+ * error_clear(): flag and message gone and NOTHING ELSE touched (the configuration a later
+ * verify/generate runs with is what the configuration calls left -- C13). */
+#define CMD_FRESH_OR_NULL __CPROVER_requires(__cmd == NULL || __CPROVER_is_fresh(__cmd, sizeof(*__cmd)))
+#define DECL_cmd_error(NAME) int NAME(const verif_cmd_t *__cmd) CMD_FRESH_OR_NULL __CPROVER_assigns() \
+__CPROVER_ensures(__CPROVER_return_value == ((__cmd == NULL || __cmd->error) ? 1 : 0))
+#define DECL_cmd_error_msg(NAME) const char *NAME(const verif_cmd_t *__cmd) CMD_FRESH_OR_NULL __CPROVER_assigns() \
+__CPROVER_ensures(__CPROVER_return_value == (__cmd == NULL ? (const char *)0 : __cmd->error_msg))
+#define DECL_cmd_error_clear(NAME) void NAME(verif_cmd_t *__cmd) CMD_FRESH_OR_NULL \
+__CPROVER_assigns(__cmd != NULL: __cmd->error, __cmd->error_msg[0]) \
+__CPROVER_ensures(__cmd == NULL || (__cmd->error == 0 && __cmd->error_msg[0] == 0))
+DECL_cmd_error(contract_C14_cmd_error);
+DECL_cmd_error_msg(contract_C14_cmd_error_msg);
+DECL_cmd_error_clear(contract_C13_cmd_error_clear);
+/* setcb (documented at jwt_checker_setcb): cb and ctx are stored together; cb == NULL with a ctx
+ * updates only the ctx of an installed callback and is refused (error set, nothing stored) when
+ * none is installed; both NULL disables the callback.  Key, alg, claims policy: untouched (frame). */
+#define DECL_cmd_setcb(NAME) int NAME(verif_cmd_t *__cmd, jwt_callback_t cb, void *ctx) CMD_FRESH_OR_NULL \
+__CPROVER_requires(__cmd == NULL || SPEC_ERRMSG_TERMINATED(__cmd)) \
+__CPROVER_assigns(__cmd != NULL: __cmd->c.cb, __cmd->c.cb_ctx, __cmd->error, SPEC_ERRMSG_FRAME(__cmd)) \
+__CPROVER_ensures(__cmd == NULL ==> __CPROVER_return_value == 1) \
+__CPROVER_ensures((__cmd != NULL && cb == NULL && ctx != NULL && __CPROVER_old(__cmd->c.cb) == NULL) ==> \
+	(__CPROVER_return_value == 1 && __cmd->error == 1 && __cmd->error_msg[0] != 0 && __cmd->c.cb == NULL && __cmd->c.cb_ctx == __CPROVER_old(__cmd->c.cb_ctx))) \
+__CPROVER_ensures((__cmd != NULL && cb == NULL && ctx != NULL && __CPROVER_old(__cmd->c.cb) != NULL) ==> \
+	(__CPROVER_return_value == 0 && __cmd->c.cb == __CPROVER_old(__cmd->c.cb) && __cmd->c.cb_ctx == ctx && __cmd->error == __CPROVER_old(__cmd->error))) \
+__CPROVER_ensures((__cmd != NULL && !(cb == NULL && ctx != NULL)) ==> \
+	(__CPROVER_return_value == 0 && __cmd->c.cb == cb && __cmd->c.cb_ctx == ctx && __cmd->error == __CPROVER_old(__cmd->error))) \
+__CPROVER_ensures(__cmd == NULL || SPEC_ERRMSG_TERMINATED(__cmd))
+DECL_cmd_setcb(contract_C13_cmd_setcb);
+#define DECL_cmd_getctx(NAME) void *NAME(verif_cmd_t *__cmd) CMD_FRESH_OR_NULL __CPROVER_assigns() \
+__CPROVER_ensures(__CPROVER_return_value == (__cmd == NULL ? (void *)0 : __cmd->c.cb_ctx))
+DECL_cmd_getctx(contract_C13_cmd_getctx);
+#endif
+
+#ifdef VERIF_TU_CHECKER
+/* ============ expected iss / sub / aud of a checker (C04) ================
+ * claim_set(type, value): for iss/sub/aud the check is switched ON and the expected value is
+ * stored under the claim's name with replace (most recent call wins); anything else is refused
+ * and nothing changes.  claim_del(type): the check is switched OFF and the stored value removed.
+ * The doers are replaced by the recording projections of their C15 contracts. */
+#include "jwt_setget_c.h"
+#define CLAIM_NAME_IS(n, a, b, c) ((n) != NULL && (n)[0] == (a) && (n)[1] == (b) && (n)[2] == (c) && (n)[3] == 0)
+#define CLAIM_NAME_OK(type, n) ((type) == JWT_CLAIM_ISS ? CLAIM_NAME_IS(n, 'i', 's', 's') : (type) == JWT_CLAIM_SUB ? CLAIM_NAME_IS(n, 's', 'u', 'b') : CLAIM_NAME_IS(n, 'a', 'u', 'd'))
+#define CLAIM_IS_STR3(type) ((type) == JWT_CLAIM_ISS || (type) == JWT_CLAIM_SUB || (type) == JWT_CLAIM_AUD)
+extern int g_set_type, g_set_replace; extern const char *g_set_name, *g_set_str;
+int contract_C04_jwt_checker_claim_set(jwt_checker_t *__cmd, jwt_claims_t type, const char *value)
+CMD_FRESH_OR_NULL
+__CPROVER_requires(g_doer_kind == 0)
+__CPROVER_assigns(__cmd != NULL: __cmd->c.claims; g_doer_kind, g_doer_ret, g_doer_which, g_doer_arg, g_set_type, g_set_replace, g_set_name, g_set_str)
+__CPROVER_ensures((__cmd == NULL || value == NULL || !CLAIM_IS_STR3(type)) ==> (__CPROVER_return_value == 1 && g_doer_kind == 0))
+__CPROVER_ensures((__cmd != NULL && (value == NULL || !CLAIM_IS_STR3(type))) ==> __cmd->c.claims == __CPROVER_old(__cmd->c.claims))
+__CPROVER_ensures((__cmd != NULL && value != NULL && CLAIM_IS_STR3(type)) ==> (
+	__cmd->c.claims == (__CPROVER_old(__cmd->c.claims) | type) &&
+	g_doer_kind == 2 && g_doer_which == __cmd->c.payload && g_set_type == JWT_VALUE_STR && g_set_replace == 1 &&
+	g_set_str == value && CLAIM_NAME_OK(type, g_set_name) &&
+	__CPROVER_return_value == (g_doer_ret != 0 ? 1 : 0)))
+;
+int contract_C04_jwt_checker_claim_del(jwt_checker_t *__cmd, jwt_claims_t type)
+CMD_FRESH_OR_NULL
+__CPROVER_requires(g_doer_kind == 0)
+__CPROVER_assigns(__cmd != NULL: __cmd->c.claims; g_doer_kind, g_doer_ret, g_doer_which, g_doer_arg)
+__CPROVER_ensures((__cmd == NULL || !CLAIM_IS_STR3(type)) ==> (__CPROVER_return_value == 1 && g_doer_kind == 0))
+__CPROVER_ensures((__cmd != NULL && !CLAIM_IS_STR3(type)) ==> __cmd->c.claims == __CPROVER_old(__cmd->c.claims))
+__CPROVER_ensures((__cmd != NULL && CLAIM_IS_STR3(type)) ==> __cmd->c.claims == (__CPROVER_old(__cmd->c.claims) & ~(unsigned)type))
+__CPROVER_ensures((__cmd != NULL && CLAIM_IS_STR3(type)) ==> (g_doer_kind == 3 && g_doer_which == __cmd->c.payload))
+__CPROVER_ensures((__cmd != NULL && CLAIM_IS_STR3(type)) ==> CLAIM_NAME_OK(type, (const char *)g_doer_arg))
+__CPROVER_ensures((__cmd != NULL && CLAIM_IS_STR3(type)) ==> (int)__CPROVER_return_value == g_doer_ret)
+;
+#endif
+
+#ifdef VERIF_TU_BUILDER
+/* ============ builder header/claim wrappers (C10, C15) ====================
+ * they hand exactly the builder's own headers resp. claims object and the caller's value to the
+ * doer and return its answer; NULL arguments are INVALID (and stored in the value when there is one). */
+#include "jwt_setget_c.h"
+#define DECL_bwrapper(NAME, KIND, DOC) \
+jwt_value_error_t NAME(jwt_builder_t *__cmd, jwt_value_t *value) \
+CMD_FRESH_OR_NULL \
+__CPROVER_requires(value == NULL || __CPROVER_is_fresh(value, sizeof(*value))) \
+__CPROVER_requires(g_doer_kind == 0) \
+__CPROVER_assigns(value != NULL: value->error; g_doer_kind, g_doer_ret, g_doer_which, g_doer_arg) \
+__CPROVER_ensures((__cmd == NULL || value == NULL) ==> (__CPROVER_return_value == JWT_VALUE_ERR_INVALID && g_doer_kind == 0)) \
+__CPROVER_ensures((__cmd == NULL && value != NULL) ==> value->error == JWT_VALUE_ERR_INVALID) \
+__CPROVER_ensures((__cmd != NULL && value != NULL) ==> (g_doer_kind == (KIND) && g_doer_which == __cmd->c.DOC && g_doer_arg == value && \
+	(int)__CPROVER_return_value == g_doer_ret))
+DECL_bwrapper(contract_C15_jwt_builder_header_get, 1, headers);
+DECL_bwrapper(contract_C15_jwt_builder_header_set, 2, headers);
+DECL_bwrapper(contract_C15_jwt_builder_claim_get, 1, payload);
+DECL_bwrapper(contract_C15_jwt_builder_claim_set, 2, payload);
+#define DECL_bwrapper_del(NAME, DOC) \
+jwt_value_error_t NAME(jwt_builder_t *__cmd, const char *field) \
+CMD_FRESH_OR_NULL \
+__CPROVER_requires(g_doer_kind == 0) \
+__CPROVER_assigns(g_doer_kind, g_doer_ret, g_doer_which, g_doer_arg) \
+__CPROVER_ensures(__cmd == NULL ==> (__CPROVER_return_value == JWT_VALUE_ERR_INVALID && g_doer_kind == 0)) \
+__CPROVER_ensures(__cmd != NULL ==> (g_doer_kind == 3 && g_doer_which == __cmd->c.DOC && g_doer_arg == field && (int)__CPROVER_return_value == g_doer_ret))
+DECL_bwrapper_del(contract_C15_jwt_builder_header_del, headers);
+DECL_bwrapper_del(contract_C15_jwt_builder_claim_del, payload);
+#endif
 #endif
